@@ -18,12 +18,20 @@ def key_fn(case, obs, verdict):
     nd_got = sum(1 for x in got if x.startswith("D:"))
     first = next((i for i, (a, b) in enumerate(zip(want, got)) if a != b), min(len(want), len(got)))
     last_tok = f[-1].split(":") if len(f) > 4 else []
-    if f[0] in ("uripost", "raw") and fin == "no-final-newline" and last_tok[:1] == ["R"] and last_tok[-1] == "-":
+    if f[0] in ("uripost", "raw") and fin == "no-final-newline" and last_tok[:1] == ["R"] and last_tok[-1] == "-" \
+            and not any(t[:2] in ("R:", "H:") and len(t) > 8000 for t in f[4:]):
         return "%s:last-entry-empty-body-unterminated:entry-dropped:%s" % (f[0], status)
     kind = "count" if nd_want != nd_got else "content"
+    # round-5 dimensions of the case: instance schedule (deliveries materialised after later Acquires),
+    # lines longer than the 4 KiB bufio buffer
+    dims = ""
+    if len(f) > 1 and "@" in f[1]:
+        dims += "+sched"
+    if any(t[:2] in ("R:", "H:") and len(t.split(":")) > 2 and (len(t.split(":")[1]) + len(t.split(":")[2])) // 2 > 4000 for t in f[4:]):
+        dims += "+longline"
     nreq = sum(1 for t in f[4:] if t[:2] in ("R:", "E:"))
     where = "first-pass" if first < nreq else "later-pass"
-    return "%s:%s:wrong-%s-in-%s:%s" % (f[0], fin, kind, where, status)
+    return "%s%s:%s:wrong-%s-in-%s:%s" % (f[0], dims, fin, kind, where, status)
 
 
 def what_fn(case, obs, verdict):
